@@ -467,5 +467,6 @@ func makeConnsPoolFactory(u *UpstreamPlain, network Network) (f pool.Factory) {
 func isExpectedConnErr(err error) (is bool) {
 	var netErr net.Error
 
-	return err != nil && (errors.As(err, &netErr) || errors.Is(err, io.EOF))
+	return err != nil &&
+		(errors.As(err, &netErr) || errors.Is(err, io.EOF) || errors.Is(err, io.ErrUnexpectedEOF))
 }
